@@ -1305,7 +1305,7 @@ impl<Sink: TokenSink> XmlTokenizer<Sink> {
             self.current_tag_attrs
                 .borrow()
                 .iter()
-                .any(|a| &*a.name.local == name)
+                .any(|a| a.name.prefix.is_none() && &*a.name.local == name)
         };
 
         if dup {
